@@ -91,10 +91,73 @@ def check_case(version: str, f: tuple, buf, dest: str) -> list:
     return viols
 
 
+def check_sequence(version: str, seq: list, buf, dest: str) -> list:
+    """Histories: several sends in a row on one gateway (a send must not be swallowed because of an earlier one)."""
+    viols = []
+    s = build(version, dest)
+    pending: list[str] = []
+    for i, f in enumerate(seq):
+        line = R.enc(*f)
+        out = s.send(Message(*f), buf)
+
+        def bad(k, what):
+            viols.append((f"C12|seq|cmd={f[2]}|buffer={buf}|dest={dest}|{k}", f"[{version}] send #{i} of {seq} (message_buffer={buf}) to {dest} node: {what}",
+                          {"version": version, "seq": [list(x) for x in seq], "buffer": buf, "dest": dest}))
+
+        if out.kind == "raise":
+            if not isinstance(out.exc, AIOMySensorsError):
+                bad(f"foreign-exception:{type(out.exc).__name__}", f"raised {out.exc!r}")
+            continue
+        if out.writes == [line]:
+            continue
+        if out.writes:
+            bad("wrote-other", f"wrote {out.writes}, expected {line!r}")
+            continue
+        pending.append(line)
+    if pending:
+        if dest == "unknown":
+            viols.append((f"C12|seq|buffer={buf}|dest={dest}|silently-discarded", f"[{version}] sends {seq}: {pending} neither written nor raised, destination unknown",
+                          {"version": version, "seq": [list(x) for x in seq], "buffer": buf, "dest": dest}))
+            return viols
+        w = wake(s, version)
+        # for one key the newest value supersedes older parked ones; every key must be released
+        last_per_key = {}
+        for line in pending:
+            f = line.split(";", 5)
+            last_per_key[(f[0], f[1], f[2], f[4])] = line
+        for key, line in last_per_key.items():
+            if w.writes.count(line) != 1:
+                viols.append((f"C12|seq|buffer={buf}|dest={dest}|silently-discarded", f"[{version}] sends {seq}: held {line!r} was written {w.writes.count(line)} times at the next wake ({w.writes})",
+                              {"version": version, "seq": [list(x) for x in seq], "buffer": buf, "dest": dest}))
+    return viols
+
+
+def sequences() -> list:
+    a = (NODE, 3, 1, 0, 2, "v")
+    b = (NODE, 3, 1, 0, 2, "w")
+    c = (NODE, 3, 1, 0, 3, "v")
+    i1 = (NODE, 255, 3, 0, 13, "")
+    i2 = (NODE, 255, 3, 0, 6, "M")
+    r = (NODE, 3, 2, 0, 2, "")
+    p = (NODE, 3, 0, 0, 3, "d")
+    st = (NODE, 255, 4, 0, 1, "fw")
+    items = [a, b, c, i1, i2, r, p, st]
+    out = []
+    for x in items:
+        for y in items:
+            out.append([x, y])
+    out += [[a, a, a], [a, b, a], [i1, i1, i1], [a, i1, a, i1], [r, r, r]]
+    return out
+
+
 def job(j):
     version, dest = j
     viols = []
     n = held = 0
+    for seq in sequences():
+        for buf in BUFFERS:
+            n += 1
+            viols += check_sequence(version, seq, buf, dest)
     for f in cases(version):
         for buf in BUFFERS:
             n += 1
@@ -121,7 +184,7 @@ def run(ctx: core.Ctx) -> core.Report:
     cov = {
         "evaluations": total,
         "distinct_nontrivial": total,
-        "rule": "five versions x {presentation,set,req} types 0-60, internal types -1..41, stream types -1..8 (codec-accepted combinations only) x message_buffer default/True/False x destination unknown/awake/sleeping, each on a fresh real gateway; every case is distinct; plus six non-message objects per (version, destination)",
+        "rule": "five versions x {presentation,set,req} types 0-60, internal types -1..41, stream types -1..8 (codec-accepted combinations only) x message_buffer default/True/False x destination unknown/awake/sleeping, each on a fresh real gateway; every case is distinct; plus six non-message objects per (version, destination); plus 69 sequences of 2-4 sends (all ordered pairs of 8 message kinds, repeats) per (version, buffering, destination)",
         "exhaustive": True,
         "bounds": {"messages_per_version": len(cs), "buffers": 3, "destinations": 3},
         "samples": [list(cs[ctx.seed % len(cs)]), list(cs[-1]), "invalid"],
@@ -137,5 +200,8 @@ def run(ctx: core.Ctx) -> core.Report:
 def replay(data: dict) -> dict:
     if data.get("nonmsg"):
         return {"violated": True, "note": "non-message case; rerun the check"}
+    if "seq" in data:
+        v = check_sequence(data["version"], [tuple(x) for x in data["seq"]], data["buffer"], data["dest"])
+        return {"violated": bool(v), "violations": [{"key": k, "what": w} for k, w, _ in v]}
     v = check_case(data["version"], tuple(data["fields"]), data["buffer"], data["dest"])
     return {"violated": bool(v), "violations": [{"key": k, "what": w} for k, w, _ in v]}
